@@ -172,6 +172,7 @@ type SchemaOptions struct {
 	AllowStruct        bool // some types are struct-backed
 	ForceStruct        int  // -1 no constraint, 0 all soft, 1 all struct
 	TwoWay             bool // generate two-way pairs
+	TagOptions         bool // some attribute / one-way relationship names look like a json tag with an option ("a,omitempty")
 }
 
 // DrawSchema draws a coherent schema spec: every relationship points to an
@@ -210,7 +211,16 @@ func DrawSchema(t *core.Tape, o SchemaOptions) *SchemaSpec {
 
 		na := t.Range(o.MinAttrs, o.MaxAttrs)
 		for i := 0; i < na; i++ {
-			ts.Attrs = append(ts.Attrs, AttrSpec{Name: drawName(t, o.Names, fn), Kind: t.Range(1, 14), Nullable: t.Bool(1, 2)})
+			an := drawName(t, o.Names, fn)
+
+			// The library takes the whole json tag as the field's name: `json:"a,omitempty"`
+			// declares a field called "a,omitempty" (in the type BuildType builds and in the
+			// wrapper alike). Such names are legal for soft types too.
+			if o.TagOptions && t.Bool(1, 8) {
+				an += ",omitempty"
+			}
+
+			ts.Attrs = append(ts.Attrs, AttrSpec{Name: an, Kind: t.Range(1, 14), Nullable: t.Bool(1, 2)})
 		}
 
 		nr := t.Range(0, o.MaxRels)
@@ -242,6 +252,10 @@ func DrawSchema(t *core.Tape, o SchemaOptions) *SchemaSpec {
 				if target == ts {
 					fn[inv] = true
 				}
+			}
+
+			if o.TagOptions && r.ToName == "" && t.Bool(1, 8) {
+				r.Name += ",omitempty" // one-way only: an inverse's name is written inside the api tag
 			}
 
 			ts.Rels = append(ts.Rels, r)
@@ -436,9 +450,17 @@ func (s *SchemaSpec) BuildSchemaHist(t *core.Tape) (*jsonapi.Schema, int, error)
 			}
 		}
 
-		held := -1
+		// soft types: the last or all attributes, and the last or all relationships,
+		// are added after the type (through Schema.AddAttr / AddRel); a type whose
+		// fields all come later is added with nil field maps
+		heldA, heldR := len(ts.Attrs), len(ts.Rels)
+
 		if !ts.Struct && len(ts.Attrs) > 0 && t.Bool(1, 2) {
-			held = len(ts.Attrs) - 1
+			heldA = []int{len(ts.Attrs) - 1, 0}[t.Draw(2)]
+		}
+
+		if !ts.Struct && len(ts.Rels) > 0 && t.Bool(1, 3) {
+			heldR = []int{len(ts.Rels) - 1, 0}[t.Draw(2)]
 		}
 
 		var (
@@ -446,9 +468,10 @@ func (s *SchemaSpec) BuildSchemaHist(t *core.Tape) (*jsonapi.Schema, int, error)
 			err error
 		)
 
-		if held >= 0 {
+		if heldA < len(ts.Attrs) || heldR < len(ts.Rels) {
 			short := *ts
-			short.Attrs = ts.Attrs[:held]
+			short.Attrs = ts.Attrs[:heldA]
+			short.Rels = ts.Rels[:heldR]
 			short.goType = nil
 			typ, err = short.SoftType()
 		} else {
@@ -463,13 +486,26 @@ func (s *SchemaSpec) BuildSchemaHist(t *core.Tape) (*jsonapi.Schema, int, error)
 			return nil, edits, err
 		}
 
-		if held >= 0 {
-			a := ts.Attrs[held]
+		// a request is served before the schema is complete: the type is looked up
+		if t.Bool(1, 2) {
+			_ = sc.HasType(ts.Name)
+			_ = sc.GetType(ts.Name)
+		}
+
+		for _, a := range ts.Attrs[heldA:] {
+			a := a
 			edits++
 
 			later = append(later, func() error {
 				return sc.AddAttr(ts.Name, jsonapi.Attr{Name: a.Name, Type: a.Kind, Nullable: a.Nullable})
 			})
+		}
+
+		for _, r := range ts.Rels[heldR:] {
+			r := r
+			edits++
+
+			later = append(later, func() error { return sc.AddRel(ts.Name, ts.JRel(r)) })
 		}
 
 		if !ts.Struct && ts.Attr("tmpattr") == nil && ts.Rel("tmpattr") == nil && ts.Attr("tmprel") == nil && ts.Rel("tmprel") == nil && t.Bool(1, 3) {
